@@ -39,6 +39,8 @@ def no_save_after_refusal(ctx, chk, rid):
 
 def run(ctx, chk):
     O, P = ctx.O, ctx.P
+    import props.anchors as anchors
+    anchors.check(ctx, chk, ['reset_drops_changes', 'raw_save_rb', 'cmp_save_rb'])
     # ATOM instances
     c13.run(ctx, chk, only={c13.RAW_W + "rollback", c13.CMP_W + "rollback"}, prefix="ATOM16")
     # B16.1
@@ -135,7 +137,9 @@ def run(ctx, chk):
     # B16.9 the pruning loop removes oldest-first by NUMERIC stamp: the paths it removes are enumerated from a
     # collection ordered by the parsed stamp (file names are decimal numbers: text order is not stamp order)
     from order import iteration_order
-    own = [b for b in O.sites(S, M(r"std::fs::remove_file"))]
+    # (the pruning removals are the ones that run after the retention count was computed; the removal of
+    # abandoned-future records happens during the directory scan, before it)
+    own = [b for b in O.sites(S, M(r"std::fs::remove_file")) if any(O.can_reach(S, x, [b]) for x in ss)]
     numeric = re.compile(r"Stamp|\b(u64|usize|u128|u32)\b")
     for b in own:
         orders = iteration_order(O, S, S.blocks[b]["term"]["args"][0])
@@ -169,8 +173,8 @@ def run(ctx, chk):
                    % meth, bool(a_sites) and not bad, key="D16.7|ChangeCursor::%s|unchecked-window" % meth,
                    msg="a truncated change record must be refused: each read checks that the whole window lies inside the "
                        "record before touching it")
-    if len(subset) < 8:
-        raise AnchorMissing("expected >= 8 change-record decoder bodies, found %d" % len(subset))
+    if len(subset) < 5:   # 8+ today; inlining a single-use parser legitimately lowers the count
+        raise AnchorMissing("expected >= 5 change-record decoder bodies, found %d" % len(subset))
     total, kinds = c17.run_sites(ctx, chk, subset, prefix="D16")
     chk.cov["change_record_decoders"] = len(subset)
     chk.cov["sites_by_kind"] = kinds
